@@ -51,6 +51,7 @@ def plan(tier):
     t.append({'kind': 'zero'})
     t.append({'kind': 'big'})
     t.append({'kind': 'm3'})
+    t.append({'kind': 'nested'})
     for pa, pb in (('not-and', 'not-and'), ('cmp', 'cmp'), ('not-and', 'xor-nor'), ('or3', 'lr')):
         for L in space.DEEP_LENGTHS[tier][:2]:
             for sa, sb in (('fwd', 'fwd'), ('fwd', 'rev'), ('rev', 'fwd')):
@@ -63,7 +64,7 @@ def plan(tier):
 
 def describe(tier):
     return {
-        'rule': 'deep: miters of two chains of 1200/3000 gates (same and different patterns, storage orders), evaluated and solved; rep3: all ordered pairs of 81 operands built from three-operand AND/OR/XOR gates over every operand triple (operands read twice, inner NOT gate); ordered pairs (left, right) of circuit variants = circuit of F(n,<=k,{NOT,AND,OR,XOR,GT,constants}) x output list '
+        'rule': 'nested: operands that are composite designs with blocks nested 1-3 levels deep under the same names on both sides; deep: miters of two chains of 1200/3000 gates (same and different patterns, storage orders), evaluated and solved; rep3: all ordered pairs of 81 operands built from three-operand AND/OR/XOR gates over every operand triple (operands read twice, inner NOT gate); ordered pairs (left, right) of circuit variants = circuit of F(n,<=k,{NOT,AND,OR,XOR,GT,constants}) x output list '
         '(every sequence of 1..2 nodes incl. inputs and repeats); both circuits share labels (also with the right circuit declaring the same input labels in reversed order); build_miter with default and custom '
         'block names; the miter is evaluated on all 2^n inputs through Circuit.evaluate and the reference evaluator; '
         'is_circuit_satisfiable(miter) with the shim solver; operands re-abstracted; every mismatched-shape pair from a small '
@@ -323,6 +324,28 @@ def run_deep(acc, pa, pb, L, sa, sb):
     check_pair(None, None, acc, built=(a, b, {'deep': [pa, pb], 'length': L, 'storage': [sa, sb]}))
 
 
+def run_nested(acc):
+    """both operands are composite designs that carry a block nested two levels deep under the same names"""
+    from cirbo.core.circuit import Circuit
+
+    bases = [(2, (('AND', (0, 1)), ('XOR', (0, 1))), (2, 3)), (2, (('XOR', (0, 1)), ('AND', (0, 1))), (3, 2)),
+             (2, (('OR', (0, 1)), ('NOT', (2,))), (3, 2)), (1, (('NOT', (0,)),), (1, 0))]
+    def wrap(spec, depth):
+        c = space.build(*spec)
+        for d in range(depth):
+            host = Circuit()
+            host.add_circuit(c, name=('ha', 'stage', 'top')[d])
+            c = host
+        return c
+    for L in bases:
+        for R in bases:
+            if L[0] != R[0] or len(L[2]) != len(R[2]):
+                continue
+            for dl, dr in ((1, 1), (2, 2), (2, 1), (3, 3)):
+                a, b = wrap(L, dl), wrap(R, dr)
+                check_pair(None, None, acc, built=(a, b, {'nested': [space.spec_json(*L), space.spec_json(*R)], 'depths': [dl, dr]}))
+
+
 def run_task(task, acc):
     if task['kind'] == 'zero':
         return run_zero(acc)
@@ -334,6 +357,8 @@ def run_task(task, acc):
         return run_m3(acc)
     if task['kind'] == 'deep':
         return run_deep(acc, task['pa'], task['pb'], task['L'], task['sa'], task['sb'])
+    if task['kind'] == 'nested':
+        return run_nested(acc)
     if task['kind'] == 'rep3':
         return run_rep3(acc, task['lo'], task['hi'])
     return run_mismatch(acc)
@@ -344,6 +369,8 @@ def replay(case, acc):
         return run_task(case['task'], acc)
     if 'big' in case:
         return run_big(acc)
+    if 'nested' in case:
+        return run_nested(acc)
     if 'deep' in case:
         return run_deep(acc, case['deep'][0], case['deep'][1], case['length'], case['storage'][0], case['storage'][1])
     L = space.spec_from_json(case['left'])
